@@ -112,7 +112,9 @@ def gen_rank(rng: random.Random, o: Opts, rank: int = 0) -> List[Dict[str, Any]]
         else:
             k = synth.kernel(rng.choice(kernel_names), kts, kdur, s, c)
         kernels.append(k)
-        stream_free[s] = kts + kdur + (0 if rng.random() < 0.3 else q * rng.randint(0, 2))
+        stream_free[s] = -(-(kts + kdur) // 1) + (0 if rng.random() < 0.3 else q * rng.randint(0, 2))  # ceil: timestamps stay whole numbers when a duration is fractional
+        if isinstance(stream_free[s], float):
+            stream_free[s] = int(stream_free[s])
 
     def fill(t0: int, t1: int, depth: int, tid: int, out: List[Dict[str, Any]]):
         """laminar children inside [t0, t1]"""
